@@ -3,12 +3,14 @@
 //!   implrun run <ID> --cases FILE --impl FILE        (re-run given case lines, e.g. the corpus)
 mod common;
 mod c06;
+mod c19;
 
 use std::io::Write;
 
 fn gen_all(id: &str, seed: u64, n: usize, thorough: bool) -> Vec<String> {
     match id {
         "C06" => c06::gen_cases(seed, n, thorough),
+        "C19" => c19::gen_cases(seed, n, thorough),
         _ => panic!("unknown property {}", id),
     }
 }
@@ -16,6 +18,7 @@ fn gen_all(id: &str, seed: u64, n: usize, thorough: bool) -> Vec<String> {
 fn run_line(id: &str, line: &str) -> String {
     let r = common::catch(|| match id {
         "C06" => c06::run_line(line),
+        "C19" => c19::run_line(line),
         _ => "UNKNOWN-PROPERTY".to_string(),
     });
     match r {
